@@ -200,6 +200,11 @@ def ex_command(draw, depth=0):
         return "rs " + reg + "\n" + _block(draw(st.lists(st.one_of(text_line, ex_simple()), max_size=3)))
     if k == 14:
         r = draw(st.sampled_from(["a", "b", "c", "x", "\\a", "\\x"]))   # only registers we fill without '@'
+        if draw(st.integers(0, 4)) == 0:
+            # a register whose script overwrites the register it is running from
+            body = draw(st.sampled_from(["1y %s|p|p|p|p|p|p|p|p", "2y %s\n4d", "1d %s|1p|2p|3p|$p", "rs %s\nx\n.\n1p\n2p", "y %s|y %s|=|=|=|="]))
+            rr = r[-1]
+            return "rs " + rr + "\n" + body.replace("%s", rr) + "\n.\n" + "@" + rr + "\n"
         return ad + draw(st.sampled_from(["@ ", "ra "])) + r + "\n"
     if k == 15:
         return "w" + draw(st.sampled_from(["", "!", "q", "q!"])) + " " + draw(st.sampled_from(FILES + ["", "", "%", "#"])) + "\n"
@@ -241,7 +246,7 @@ def ex_command(draw, depth=0):
         fill = draw(st.sampled_from(["x", "%", "#", "% ", "é", "\\", "a b ", "/"]))
         return (base + fill * n)[:n] + "\n"
     if k == 29:
-        return draw(st.sampled_from(["bogus", "z", "xyzzy 1 2", "&", "~", "k", "!", "=", "@", "ra", "rs", "rx", "rk a nosock", "rk z nosock", "rk z /nonexistent/s", "rk", "rk \\y x", "so nofile", "so f", "make", "make -n x"])) + "\n"
+        return draw(st.sampled_from(["bogus", "z", "xyzzy 1 2", "&", "~", "k", "!", "=", "@", "ra", "rs", "rx", "rs \\:\n.", "rs \\/\n.", "rs \\!\n.", "rk a nosock", "rk z nosock", "rk z /nonexistent/s", "rk", "rk \\y x", "so nofile", "so f", "make", "make -n x"])) + "\n"
     if k == 30:
         # | lists
         a = draw(ex_simple())
